@@ -151,7 +151,8 @@ Proof.
   - destruct (Nat.eqb arg 0); [inversion H; subst; clear H; join_leaf Inv|].
     destruct (r_cancel (getr s r)); [|discriminate]. inversion H; subst; clear H; join_leaf Inv.
   - destruct (r_mu (getr s r)); [discriminate|]. destruct (r_stop (getr s r)); inversion H; subst; clear H; simpl; join_leaf Inv.
-  - destruct (r_clock (getr s r)); [discriminate|]. inversion H; subst; clear H. simpl. join_leaf Inv.
+  - destruct (Nat.eqb arg 1); [destruct (r_cancel (getr s r)); [|discriminate] | destruct (r_clock (getr s r)); [discriminate|]];
+      inversion H; subst; clear H; simpl; join_leaf Inv.
   - destruct ks as [|k ks']; [inversion H; subst; clear H; simpl; join_leaf Inv|].
     destruct (memb arg (k :: ks')); [|discriminate]. destruct (n_inv (getN s arg)); inversion H; subst; clear H; simpl; join_leaf Inv.
   - unfold alloc in H. inversion H; subst; clear H. simpl. join_leaf Inv.
@@ -470,7 +471,8 @@ Proof.
     destruct (r_cancel (getr s r)); [|discriminate]. injection H as E1 E2 E3; subst s1 st sp. apply jres_nobend; [exact Nb | lia | exact NoSp].
   - destruct (r_mu (getr s r)); [discriminate|].
     destruct (r_stop (getr s r)); injection H as E1 E2 E3; subst s1 st sp; (apply jres_nobend; [simpl; exact Nb | simpl; lia | exact NoSp]).
-  - destruct (r_clock (getr s r)); [discriminate|]. injection H as E1 E2 E3; subst s1 st sp. apply jres_nobend; [simpl; exact Nb | simpl; lia | exact NoSp].
+  - destruct (Nat.eqb arg 1); [destruct (r_cancel (getr s r)); [|discriminate]; injection H as E1 E2 E3; subst s1 st sp; apply jres_nobend; [exact Nb | simpl; lia | exact NoSp]|].
+    destruct (r_clock (getr s r)); [discriminate|]. injection H as E1 E2 E3; subst s1 st sp. apply jres_nobend; [simpl; exact Nb | simpl; lia | exact NoSp].
   - destruct ks as [|k ks']; [injection H as E1 E2 E3; subst s1 st sp; apply jres_nobend; [simpl; exact Nb | simpl; lia | exact NoSp]|].
     destruct (memb arg (k :: ks')); [|discriminate].
     destruct (n_inv (getN s arg)); injection H as E1 E2 E3; subst s1 st sp; (apply jres_nobend; [simpl; exact Nb | simpl; lia | exact NoSp]).
@@ -705,7 +707,8 @@ Proof.
   - destruct (Nat.eqb arg 0); [injection H as E1 E2 E3; subst s1 st sp; split; [uw_push Ur | exact NoSp]|].
     destruct (r_cancel (getr s r)); [|discriminate]. injection H as E1 E2 E3; subst s1 st sp. split; [exact Ur | exact NoSp].
   - destruct (r_mu (getr s r)); [discriminate|]. destruct (r_stop (getr s r)); injection H as E1 E2 E3; subst s1 st sp; (split; [uw_push Ur | exact NoSp]).
-  - destruct (r_clock (getr s r)); [discriminate|]. injection H as E1 E2 E3; subst s1 st sp. split; [uw_push Ur | exact NoSp].
+  - destruct (Nat.eqb arg 1); [destruct (r_cancel (getr s r)); [|discriminate]; injection H as E1 E2 E3; subst s1 st sp; split; [exact Ur | exact NoSp]|].
+    destruct (r_clock (getr s r)); [discriminate|]. injection H as E1 E2 E3; subst s1 st sp. split; [uw_push Ur | exact NoSp].
   - destruct ks as [|k ks']; [injection H as E1 E2 E3; subst s1 st sp; split; [uw_push Ur | exact NoSp]|].
     destruct (memb arg (k :: ks')); [|discriminate]. destruct (n_inv (getN s arg)); injection H as E1 E2 E3; subst s1 st sp; (split; [uw_push Ur | exact NoSp]).
   - (* FBegin *)
